@@ -2,6 +2,7 @@ import Hive.Proofs.KVRefine
 import Hive.Proofs.KVCopy
 import Hive.Proofs.KVTrace
 import Hive.Proofs.KVFault
+import Hive.Proofs.KVHeap
 import Hive.Gen.C04_Calls
 import Hive.Gen.C04_Skel
 /-!
@@ -425,6 +426,78 @@ example : trMut false (some (.set, [[1], [2]])) (.set [1] [2]) true [.flush, .de
     ([.cb 17 .set [[1], [2]], .call (.set [1] [2]), .call .flush], false) ∧
     trFwd (some (.get, [[1]])) (.get [1]) [.flush, .debug 17 true, .flush, .debug 255 false] = [.call (.get [1])] := by
   decide
+
+/-! ## the private-copy clause: the store with memory (`Hive/Model/KVHeap.lean`) -/
+
+section PrivateCopies
+open Heap
+
+/-- **The store never shares a buffer with the caller**, in every state reachable by any history of requests and
+caller actions (`alloc`, `write` to any buffer the caller holds — at any time, in particular after `Set` or
+`Commit` returned, and on buffers that reads returned): every buffer the map references was allocated by the
+store itself, is unknown to the caller, and every buffer a pending batch references is one the caller passed. -/
+theorem C04_private_inv_reachable (ops : List HOp) : HInv (hrun hinit ops) :=
+  hinv_run _ hinv_init ops
+
+/-- **Mutating a caller's buffer does not change stored data.**  In every reachable state, overwriting any
+buffer — one the caller passed to `Set` or to a batch that has been committed, one that `Get` or an iteration
+returned, any other — with any content leaves every stored key and value as it is (a reference the caller does
+not hold cannot be written at all). -/
+theorem C04_caller_writes_do_not_reach_the_store (ops : List HOp) (r : Ref) (b : Bytes) :
+    storeView (hstep (hrun hinit ops) (.write r b)).1 = storeView (hrun hinit ops) := by
+  have h := C04_private_inv_reachable ops
+  generalize hrun hinit ops = s at h ⊢
+  simp only [hstep]
+  split
+  · rename_i hk
+    exact deref_congr (fun e he => read_write_ne _ _ _ _ (fun heq => h.owned_priv e he (heq ▸ hk)))
+  · rfl
+
+/-- **`Set` stores the bytes the buffer holds when it is called** (in a new buffer): the stored data afterwards is
+the value model's `aset (realm ‖ k) (content of v)`. -/
+theorem C04_set_stores_a_copy (s : HSt) (h : HInv s) (realm k : Bytes) (v : Ref) (hv : v ∈ s.known) :
+    (hstep s (.set realm k v)).2 = .ok ∧
+    storeView (hstep s (.set realm k v)).1 = aset (realm ++ k) (s.mem.read v) (storeView s) := by
+  simp only [hstep, hv, if_true, storeView]
+  exact ⟨trivial, (mapSet_ok s.mem s.m (realm ++ k) v h.owned_lt).2 (h.known_lt v hv)⟩
+
+/-- **`Get` returns a private copy**: a new buffer holding the stored value, which is not the buffer the map
+references (so, by `C04_caller_writes_do_not_reach_the_store`, writing to it changes nothing), and the stored
+data is unchanged by the read. -/
+theorem C04_get_returns_a_private_copy (s : HSt) (h : HInv s) (realm k : Bytes) (r0 : Ref)
+    (hg : rget (realm ++ k) s.m = some r0) :
+    ∃ r, (hstep s (.get realm k)).2 = .ref r ∧ (∀ e ∈ (hstep s (.get realm k)).1.m, e.2 ≠ r) ∧
+      (hstep s (.get realm k)).1.mem.read r = s.mem.read r0 ∧ r ∈ (hstep s (.get realm k)).1.known ∧
+      storeView (hstep s (.get realm k)).1 = storeView s := by
+  refine ⟨s.mem.next, ?_⟩
+  simp only [hstep, hg, alloc_ref, storeView]
+  refine ⟨trivial, fun e he heq => Nat.lt_irrefl _ (heq ▸ h.owned_lt e he), ?_, by simp, ?_⟩
+  · rw [← alloc_ref s.mem (s.mem.read r0), read_alloc_new]
+  · exact deref_congr (fun e he => read_alloc_lt _ _ _ (h.owned_lt e he))
+
+/-- **`Commit` stores copies made at commit time**: the stored data afterwards is the value model's `dbCommit`
+applied to the *contents* the batch's buffers have when `Commit` is called — and by `C04_private_inv_reachable` /
+`C04_caller_writes_do_not_reach_the_store` nothing the caller does to those buffers after `Commit` returned
+changes it.  (Before `Commit` the batch holds the caller's buffers themselves: that is the code, see the notes.) -/
+theorem C04_commit_stores_copies (s : HSt) (h : HInv s) (b : Nat) (bt : HBatch) (hl : s.batches.lookup b = some bt) :
+    (hstep s (.commit b)).2 = .ok ∧
+    storeView (hstep s (.commit b)).1 =
+      (dbCommit bt.realm (deref s.mem bt.sets) bt.dels { m := storeView s, closed := false }).1.m := by
+  have hs : ∀ e ∈ bt.sets, e.2 < s.mem.next :=
+    fun e he => h.known_lt _ (h.batch_known (b, bt) (lookup_mem' hl) e he)
+  obtain ⟨_, hd⟩ := commitSets_ok bt.realm bt.sets s.mem s.m h.owned_lt hs
+  simp only [hstep, hl, storeView, dbCommit, Bool.false_eq_true, if_false]
+  refine ⟨trivial, ?_⟩
+  rw [deref_foldr_rdel, hd, foldr_deref_sets]
+
+/-- The hypotheses are satisfiable: a history with a `Set`, a write to the buffer afterwards, a `Get`, a write to
+the returned buffer, a batch whose buffer is overwritten after `Commit` — the stored data keeps the values at
+call time. -/
+example : storeView (hrun hinit [.alloc [1], .set [9] [0] 0, .write 0 [2], .get [9] [0], .write 2 [3], .alloc [4],
+    .batch 7 [9], .bset 7 [5] 3, .commit 7, .write 3 [6]]) = [([9, 5], [4]), ([9, 0], [1])] := by
+  decide
+
+end PrivateCopies
 
 /-! ## regenerated facts about the source (`Hive/Gen/C04_Calls.lean`, `Hive/Gen/C04_Skel.lean`)
 
